@@ -9,25 +9,29 @@ import (
 // genState is what the online generator has observed so far; ids come from the
 // implementation's own answers so that histories stay mostly valid.
 type genState struct {
-	rng      *hcommon.RNG
-	prop     string
-	nextKey  int
-	live     []int         // attached session keys
-	nextReq  map[int]int   // per session request counter
-	subs     map[int][]int // session -> subscription ids it holds
-	regs     map[int][]int // session -> registration ids it holds
-	invs     map[int][]int // callee -> pending invocation ids
-	calls    map[int][]int // caller -> pending call request ids
-	allSubs  []int
-	allRegs  []int
-	features map[int]map[string][]string
-	metaReq  map[string]bool
-	cfg      map[string]any
-	realms   []string       // realm names (multi-realm histories)
-	realmOf  map[int]string // session -> realm
-	stalled  map[int]bool
-	usedMeta map[int]bool // sessions that called a wamp.* procedure (never stalled: known finding F19)
-	smallCap map[int]bool // sessions with a tiny queue: they never subscribe (which of several events of one
+	rng       *hcommon.RNG
+	prop      string
+	nextKey   int
+	live      []int         // attached session keys
+	nextReq   map[int]int   // per session request counter
+	subs      map[int][]int // session -> subscription ids it holds
+	regs      map[int][]int // session -> registration ids it holds
+	invs      map[int][]int // callee -> pending invocation ids
+	calls     map[int][]int // caller -> pending call request ids
+	allSubs   []int
+	allRegs   []int
+	features  map[int]map[string][]string
+	metaReq   map[string]bool
+	cfg       map[string]any
+	realms    []string       // realm names (multi-realm histories)
+	realmOf   map[int]string // session -> realm
+	stalled   map[int]bool
+	usedMeta  map[int]bool   // sessions that called a wamp.* procedure (never stalled: known finding F19)
+	regPolicy map[string]any // policy first used for a procedure
+	pubsSeen  []int          // one entry per PUBLISHED observed ({"$pub": j} refers to the j-th)
+	regProcs  []string       // procedures somebody tried to register (calls aim at them)
+	subTopics []string       // topics somebody tried to subscribe to exactly (publications aim at them)
+	smallCap  map[int]bool   // sessions with a tiny queue: they never subscribe (which of several events of one
 	// action overflows depends on Go map iteration order)
 	closed bool
 }
@@ -52,7 +56,7 @@ var roleFeatures = map[string][]string{
 func newGen(rng *hcommon.RNG, prop string) *genState {
 	return &genState{rng: rng, prop: prop, nextKey: 1, nextReq: map[int]int{}, subs: map[int][]int{}, regs: map[int][]int{},
 		invs: map[int][]int{}, calls: map[int][]int{}, features: map[int]map[string][]string{}, metaReq: map[string]bool{},
-		realmOf: map[int]string{}, stalled: map[int]bool{}, usedMeta: map[int]bool{}, smallCap: map[int]bool{}}
+		realmOf: map[int]string{}, stalled: map[int]bool{}, usedMeta: map[int]bool{}, smallCap: map[int]bool{}, regPolicy: map[string]any{}}
 }
 
 func (g *genState) config() map[string]any {
@@ -64,14 +68,20 @@ func (g *genState) config() map[string]any {
 	}
 	if r.Chance(1, 3) || g.prop == "C20" {
 		var hs []any
+		lim := func() int {
+			if g.prop == "C20" {
+				return 1 + r.Intn(6)
+			}
+			return 1 + r.Intn(3)
+		}
 		for i := 0; i < 1+r.Intn(2); i++ {
 			switch r.Intn(3) {
 			case 0:
-				hs = append(hs, map[string]any{"topic": hcommon.Pick(r, topics), "match": "exact", "limit": 1 + r.Intn(3)})
+				hs = append(hs, map[string]any{"topic": hcommon.Pick(r, topics), "match": "exact", "limit": lim()})
 			case 1:
-				hs = append(hs, map[string]any{"topic": hcommon.Pick(r, []string{"a", "a.b", "x"}), "match": "prefix", "limit": 1 + r.Intn(3)})
+				hs = append(hs, map[string]any{"topic": hcommon.Pick(r, []string{"a", "a.b", "x"}), "match": "prefix", "limit": lim()})
 			default:
-				hs = append(hs, map[string]any{"topic": hcommon.Pick(r, []string{"a..c", "a."}), "match": "wildcard", "limit": 1 + r.Intn(3)})
+				hs = append(hs, map[string]any{"topic": hcommon.Pick(r, []string{"a..c", "a."}), "match": "wildcard", "limit": lim()})
 			}
 		}
 		cfg["history"] = hs
@@ -272,6 +282,24 @@ func (g *genState) matchOpt(o map[string]any) (string, string) {
 	return "exact", hcommon.Pick(r, topics)
 }
 
+var optionKeys = []string{"acknowledge", "disclose_caller", "disclose_me", "exclude_me", "invoke", "match", "mode",
+	"progress", "receive_progress", "timeout", "ppt_scheme", "ppt_serializer", "ppt_cipher", "ppt_keyid", "forward_timeout",
+	"exclude", "eligible", "exclude_authid", "eligible_authid", "exclude_authrole", "eligible_authrole", "eligible_team", "exclude_", "eligible_"}
+
+// hostile overrides option keys with values of every WAMP kind (C04: any value type in any option position).
+func (g *genState) hostile(o map[string]any) map[string]any {
+	r := g.rng
+	if !(g.prop == "C04" && r.Chance(1, 2)) && !r.Chance(1, 25) {
+		return o
+	}
+	vals := []any{nil, true, false, 0, 1, -1, 9007199254740992, "x", "", "prefix", "kill", []any{}, map[string]any{},
+		[]any{1, "a", nil}, map[string]any{"a": 1}, []any{[]any{}}, "mqtt", []any{""}, []any{map[string]any{"$sid": 1}}}
+	for i := 0; i < 1+r.Intn(3); i++ {
+		o[hcommon.Pick(r, optionKeys)] = hcommon.Pick(r, vals)
+	}
+	return o
+}
+
 func pickInt(r *hcommon.RNG, xs []int, fallback int) int {
 	if len(xs) == 0 || r.Chance(1, 10) {
 		return fallback
@@ -350,7 +378,11 @@ func (g *genState) next() map[string]any {
 			return map[string]any{"op": "stall", "s": k}
 		}
 	}
-	switch w := r.Intn(100); {
+	w := r.Intn(100)
+	if g.prop == "C20" && r.Chance(1, 2) {
+		w = hcommon.Pick(r, []int{20, 20, 85, 85, 85, 10}) // publish / meta call / subscribe
+	}
+	switch {
 	case w < 14: // SUBSCRIBE
 		if g.smallCap[k] {
 			return map[string]any{"op": "tick", "ms": 1}
@@ -367,19 +399,24 @@ func (g *genState) next() map[string]any {
 				t = hcommon.Pick(r, []string{"wamp.", "wamp.session.", "wamp.subscription.", "wamp.registration."})
 			}
 		}
-		return msg(32, g.req(k), o, t)
+		if _, pattern := o["match"]; !pattern {
+			g.subTopics = append(g.subTopics, t)
+		}
+		return msg(32, g.req(k), g.hostile(o), t)
 	case w < 19: // UNSUBSCRIBE
 		return msg(34, g.req(k), pickInt(r, append(append([]int{}, g.subs[k]...), g.allSubs...), 1+r.Intn(8)))
 	case w < 38: // PUBLISH
 		t := hcommon.Pick(r, topics)
 		if g.prop == "C20" && r.Chance(3, 4) {
 			t = hcommon.Pick(r, g.histTopics())
+		} else if len(g.subTopics) > 0 && r.Chance(1, 2) {
+			t = hcommon.Pick(r, g.subTopics)
 		}
 		if r.Chance(1, 12) {
 			t = hcommon.Pick(r, badURIs)
 		}
 		args, kw := g.payload()
-		return msg(16, g.req(k), g.pubOptions(), t, args, kw)
+		return msg(16, g.req(k), g.hostile(g.pubOptions()), t, args, kw)
 	case w < 48: // REGISTER
 		o := map[string]any{}
 		p := hcommon.Pick(r, procs)
@@ -394,6 +431,15 @@ func (g *genState) next() map[string]any {
 		if r.Chance(1, 2) {
 			o["invoke"] = hcommon.Pick(r, []any{"single", "first", "last", "roundrobin", "roundrobin", "first", "bogus"})
 		}
+		if pol, ok := g.regPolicy[p]; ok && r.Chance(4, 5) {
+			// share the registration: same procedure, same policy
+			if pol == nil {
+				delete(o, "invoke")
+			} else {
+				o["invoke"] = pol
+			}
+			delete(o, "match")
+		}
 		if r.Chance(1, 5) {
 			o["disclose_caller"] = true
 		}
@@ -403,7 +449,13 @@ func (g *genState) next() map[string]any {
 		if r.Chance(1, 12) {
 			p = hcommon.Pick(r, append(badURIs, "wamp.x", "wamp.session.count"))
 		}
-		return msg(64, g.req(k), o, p)
+		if _, pattern := o["match"]; !pattern {
+			g.regProcs = append(g.regProcs, p)
+			if _, seen := g.regPolicy[p]; !seen {
+				g.regPolicy[p] = o["invoke"]
+			}
+		}
+		return msg(64, g.req(k), g.hostile(o), p)
 	case w < 52: // UNREGISTER
 		return msg(66, g.req(k), pickInt(r, append(append([]int{}, g.regs[k]...), g.allRegs...), 20+r.Intn(8)))
 	case w < 66: // CALL
@@ -427,13 +479,16 @@ func (g *genState) next() map[string]any {
 			}
 		}
 		p := hcommon.Pick(r, append([]string{"p.q.r.s", "zz"}, procs...))
+		if len(g.regProcs) > 0 && r.Chance(2, 3) {
+			p = hcommon.Pick(r, g.regProcs)
+		}
 		args, kw := g.payload()
 		rq := g.req(k)
 		if r.Chance(1, 12) && len(g.calls[k]) > 0 {
 			rq = hcommon.Pick(r, g.calls[k]) // reuse the id of a pending call (a progressive chunk)
 			o["progress"] = r.Chance(1, 2)
 		}
-		return msg(48, rq, o, p, args, kw)
+		return msg(48, rq, g.hostile(o), p, args, kw)
 	case w < 74: // YIELD
 		o := map[string]any{}
 		if r.Chance(1, 4) {
@@ -450,7 +505,7 @@ func (g *genState) next() map[string]any {
 				break
 			}
 		}
-		return map[string]any{"op": "msg", "s": k, "m": []any{70, pickInt(r, g.invs[k], 1+r.Intn(4)), o, args, kw}}
+		return map[string]any{"op": "msg", "s": k, "m": []any{70, pickInt(r, g.invs[k], 1+r.Intn(4)), g.hostile(o), args, kw}}
 	case w < 78: // ERROR
 		args, kw := g.payload()
 		typ := 68
@@ -475,7 +530,7 @@ func (g *genState) next() map[string]any {
 				break
 			}
 		}
-		return map[string]any{"op": "msg", "s": k, "m": []any{49, pickInt(r, g.calls[k], 1+r.Intn(6)), o}}
+		return map[string]any{"op": "msg", "s": k, "m": []any{49, pickInt(r, g.calls[k], 1+r.Intn(6)), g.hostile(o)}}
 	case w < 92: // meta procedure call
 		if g.stalled[k] {
 			return map[string]any{"op": "tick", "ms": hcommon.Pick(r, []int{1, 2, 4, 1000})}
@@ -620,6 +675,17 @@ func (g *genState) metaCall(k int) map[string]any {
 		return call("wamp.subscription.count_suscribers", hcommon.Pick(r, [][]any{{subID}, nil, {0}}), nil)
 	case 21:
 		kw := map[string]any{}
+		if g.prop == "C20" {
+			// combinations of filters: topic x publication bounds x limit x reverse
+			if r.Chance(1, 2) {
+				kw["topic"] = hcommon.Pick(r, g.histTopics())
+			}
+			for _, b := range []string{"from_publication", "after_publication", "before_publication", "until_publication"} {
+				if r.Chance(1, 4) {
+					kw[b] = map[string]any{"$pub": r.Intn(1 + len(g.pubsSeen))}
+				}
+			}
+		}
 		if r.Chance(1, 3) {
 			kw["limit"] = hcommon.Pick(r, []any{1, 2, 5, 0, "x"})
 		}
@@ -682,6 +748,8 @@ func (g *genState) observe(l Line) {
 				g.allRegs = append(g.allRegs, id)
 			case 68:
 				g.invs[k] = append(g.invs[k], int(num(m[1])))
+			case 17:
+				g.pubsSeen = append(g.pubsSeen, 1)
 			}
 		}
 	}
